@@ -578,6 +578,7 @@ fn harnesses(tier: Tier) -> Vec<Harness> {
         h("get||get unverified after reopen", 0, vec![Put(0, 0, 3), Reopen], vec![vec![Get(0, 0, 3)], vec![Get(0, 1, 2)]]),
         h("get||get of an item damaged while closed", 0, vec![Put(0, 0, 3), DamageAndReopen(0, 0, 3)], vec![vec![Get(0, 0, 3)], vec![Get(0, 2, 3)]]),
         h("get||put over an item damaged while closed", 0, vec![Put(0, 0, 3), DamageAndReopen(0, 0, 3)], vec![vec![Get(0, 2, 3)], vec![Put(0, 2, 3)]]),
+        h("put,put||put identical then nested", 0, vec![], vec![vec![Put(0, 0, 2), Put(0, 0, 3)], vec![Put(0, 0, 2)]]),
     ];
     if tier == Tier::Thorough {
         v.extend(vec![
@@ -592,7 +593,6 @@ fn harnesses(tier: Tier) -> Vec<Harness> {
             h("put||put identical after reopen", 0, vec![Put(0, 0, 2), Reopen], vec![vec![Put(0, 0, 2)], vec![Put(0, 0, 2)]]),
             h("evicting put||evicting put (cap 1)", 2, vec![Put(0, 0, 1)], vec![vec![Put(1, 0, 2)], vec![Put(1, 1, 3)]]),
             h("get||get||subsuming put", 0, vec![Put(0, 1, 2)], vec![vec![Get(0, 1, 2)], vec![Get(0, 1, 2)], vec![Put(0, 0, 3)]]),
-            h("put,put||put identical then nested", 0, vec![], vec![vec![Put(0, 0, 2), Put(0, 0, 3)], vec![Put(0, 0, 2)]]),
             h("get||get||get of an item damaged while closed", 0, vec![Put(0, 0, 3), DamageAndReopen(0, 0, 3)], vec![vec![Get(0, 0, 3)], vec![Get(0, 2, 3)], vec![Get(0, 1, 3)]]),
             h("get||get of a damaged item with an intact fallback", 0, vec![Put(0, 2, 3), Put(0, 0, 2), Put(0, 1, 3), DamageAndReopen(0, 1, 3)], vec![vec![Get(0, 2, 3)], vec![Get(0, 2, 3)]]),
         ]);
